@@ -1,119 +1,5 @@
-(* C20 — flat-integer interface of the model for the generic OCaml driver.
-
-   input  = nsecs (merge? default-tree)*   nnodes (nlabels (key value)* )*   nops op*
-   op     = kind cmap        kind 0 Create, 1 Update(Data changed)              -> OSync
-                             kind 2 Update(Data equal), 3 Delete, 4 other name  -> ONop
-                             kind 5 IsCfgAvailable, ConfigMap in the informer   -> OAvail (Some _)
-          | 6                IsCfgAvailable, ConfigMap not found                -> OAvail None
-   cmap   = nsections (status style payload?)*   status 0 absent, 1 malformed text (no payload),
-                             2 type error (payload, rendered with a wrongly typed field), 3 value
-   payload= cluster-tree nentries (selector tree)*
-   selector = 0 | 1 nreq (key op nvals val* )*
-   tree   = the encoding [Model.enc]
-   observable = after every op, for every node, for every section: [enc] of the effective value *)
-From Coq Require Import List ZArith Bool.
-From Verif Require Import Lib.Wire C20.Model C20.Spec.
-Import ListNotations.
-Open Scope Z_scope.
-
-Definition dec_kv (l : list Z) : (Z * Z) * list Z :=
-  match l with
-  | k :: v :: t => ((k, v), t)
-  | _ => ((0, 0), [])
-  end.
-
-Fixpoint dec (fuel : nat) (l : list Z) : cfg * list Z :=
-  match fuel with
-  | O => (Leaf false None, [])
-  | S f =>
-    match l with
-    | 0 :: t => (Leaf false None, t)
-    | 1 :: v :: t => (Leaf false (Some v), t)
-    | 6 :: t => (Leaf true None, t)
-    | 7 :: v :: t => (Leaf true (Some v), t)
-    | 2 :: t => (Obj None, t)
-    | 3 :: n :: t => let '(fs, r) := decode_many (dec f) (Z.to_nat n) t in (Obj (Some fs), r)
-    | 4 :: n :: t => let '(xs, r) := decode_many (dec f) (Z.to_nat n) t in (Arr xs, r)
-    | 5 :: n :: t => let '(kvs, r) := decode_many dec_kv (Z.to_nat n) t in (Map kvs, r)
-    | _ => (Leaf false None, [])
-    end
-  end.
-
-Definition dec_tree (l : list Z) : cfg * list Z := dec (length l) l.
-
-Definition dec_req (l : list Z) : req * list Z :=
-  match l with
-  | k :: o :: t => let '(vs, r) := take_list t in (mkReq k o vs, r)
-  | _ => (mkReq 0 99 [], [])
-  end.
-
-Definition dec_sel (l : list Z) : selector * list Z :=
-  match l with
-  | 0 :: t => (None, t)
-  | _ :: t => let '(rs, r) := decode_seq dec_req t in (Some rs, r)
-  | [] => (None, [])
-  end.
-
-Definition dec_entry (l : list Z) : entry * list Z :=
-  let '(s, r) := dec_sel l in
-  let '(c, r') := dec_tree r in (mkEntry s c, r').
-
-Definition dec_section (l : list Z) : section_in * list Z :=
-  match l with
-  | st :: _style :: t =>
-      if (st =? 2) || (st =? 3) then
-        let '(c, r) := dec_tree t in
-        let '(es, r') := decode_seq dec_entry r in
-        ((if st =? 3 then SValue c es else SMalformed), r')
-      else ((if st =? 0 then SAbsent else SMalformed), t)
-  | _ => (SAbsent, [])
-  end.
-
-Definition dec_cmap (l : list Z) : cmap * list Z := decode_seq dec_section l.
-
-Definition dec_op (l : list Z) : op * list Z :=
-  match l with
-  | k :: t =>
-      if k =? 6 then (OAvail None, t)
-      else let '(c, r) := dec_cmap t in
-           ((if (k =? 0) || (k =? 1) then OSync c
-             else if k =? 5 then OAvail (Some c) else ONop), r)
-  | [] => (ONop, [])
-  end.
-
-Definition dec_secdef (l : list Z) : secdef * list Z :=
-  match l with
-  | mflag :: t => let '(c, r) := dec_tree t in (mkSec (zb mflag) c, r)
-  | [] => (mkSec true (Obj None), [])
-  end.
-
-Definition dec_labels (l : list Z) : labels * list Z := decode_seq dec_kv l.
-
-Definition decode (inp : list Z) : input :=
-  let '(sds, r1) := decode_seq dec_secdef inp in
-  let '(nodes, r2) := decode_seq dec_labels r1 in
-  let '(ops, _) := decode_seq dec_op r2 in
-  mkInput sds nodes ops.
-
-Definition run_case (inp : list Z) : list Z := enc_obs (run faithful (decode inp)).
-
-Definition prop_case (inp obs : list Z) : Z := prop_code (decode inp) obs.
-
-Definition finding_sig (inp obs : list Z) : Z := finding_code (decode inp) obs.
-
-(* non-trivial: some applied ConfigMap has a well-formed section with a node entry that selects
-   one of the probe nodes (so all three layers take part) *)
-Definition sec_selects (nodes : list labels) (s : section_in) : bool :=
-  match s with
-  | SValue _ es => existsb (fun ls => match first_match ls es with Some _ => true | None => false end) nodes
-  | _ => false
-  end.
-
-Definition nontrivial_case (inp : list Z) : bool :=
-  let i := decode inp in
-  existsb (fun oc => match oc with Some c => existsb (sec_selects (in_nodes i)) c | None => false end)
-          (eff_syncs false (in_ops i)).
-
+(* C20 — extraction of the entry points defined in Codec.v for the generic OCaml driver. *)
+From Verif Require Import C20.Codec.
 Require Extraction.
 Require Import ExtrOcamlBasic.
 Extraction "model.ml" run_case prop_case nontrivial_case finding_sig.
